@@ -352,6 +352,20 @@ func decodeGuarded(data []byte, dst any) (out decodeOut) {
 	}
 }
 
+// scribble overwrites every byte string of a decoded value in place
+func scribble(v ttlv.Value) {
+	switch x := v.Value.(type) {
+	case []byte:
+		for i := range x {
+			x[i] ^= 0xFF
+		}
+	case ttlv.Struct:
+		for _, k := range x {
+			scribble(k)
+		}
+	}
+}
+
 func beyondRFC3339(v ttlv.Value) bool {
 	switch x := v.Value.(type) {
 	case time.Time:
@@ -517,6 +531,18 @@ func TestReplay(t *testing.T) {
 			if d1.Outcome == "value" || d2.Outcome == "value" {
 				if d1.Outcome != d2.Outcome || canon(projValue(d1.Value)) != canon(projValue(d2.Value)) {
 					bad("c02:second-decode-differs", map[string]any{"first": canon(projValue(d1.Value)), "second": canon(projValue(d2.Value)), "o1": d1.Outcome, "o2": d2.Outcome})
+				}
+			}
+			// what the decoder hands out is the caller's: a caller that wipes a decoded secret writes into ITS copy, not into the input
+			// (a decode of its own: the values compared below stay as they are)
+			if d1.Outcome == "value" {
+				in3 := append([]byte(nil), spec...)
+				var v3 ttlv.Value
+				if d3 := decodeInto(in3, &v3); d3.Outcome == "value" {
+					scribble(d3.Value)
+					if !bytes.Equal(in3, spec) {
+						bad("c02:decoded-value-shares-memory-with-the-input", map[string]any{"before": fmt.Sprintf("%x", spec), "after": fmt.Sprintf("%x", in3)})
+					}
 				}
 			}
 			// the same input in read-only memory that ends at an inaccessible page: same outcome, and no fault - a decoder reads its
